@@ -232,58 +232,98 @@ def run(ck: Check):
             ck.violation("c16:leak:" + (sorted(extra)[0] if extra else "waiter-or-timer"),
                          f"after all operations {ops} ended (messages {feed}, cancel {cancel}): handlers left {extra}, "
                          f"waiters {waiters}, request timers {timers}", {"ops": ops, "feed": chunks, "cancel": cancel})
-    # device connect: timeout branch
+    # device connect: the call for `addr` resolves on ANY connection response for that address, times out otherwise;
+    # a timeout unsubscribes, writes DISCONNECT for the address, waits (bounded) for connected=False, then raises
     conn_lines, conn_impl = [], []
-    for evs in (["timeout", "disc:A:0"], ["timeout", "disctimeout"], ["conn:B", "timeout", "disc:B:0", "disc:A:0"], ["conn:A"],
-                ["timeout", "conn:A", "disctimeout"], ["conn:B", "conn:A"]):
-        net, client, conn, _ = simnet.established(keepalive=100000.0)
-        loop = net.loop
-        base = {k: len(v) for k, v in conn._message_handlers.items()}
-        log = []
-        n0 = len(net.written())
-        t = tasks._PyTask(client.bluetooth_device_connect(A, lambda *a: None, timeout=30.0, disconnect_timeout=20.0),
-                          loop=loop, name="bconn", eager_start=True)
-        loop.run_idle()
-        for e in evs:
-            k = e.split(":")
-            if k[0] == "timeout":
-                loop.advance(30.0)
-            elif k[0] == "disctimeout":
-                loop.advance(20.0)
-            elif k[0] == "conn":
-                net.send(pb.BluetoothDeviceConnectionResponse(address=A if k[1] == "A" else B, connected=True, mtu=23))
-            elif k[0] == "disc":
-                net.send(pb.BluetoothDeviceConnectionResponse(address=A if k[1] == "A" else B, connected=k[2] == "1"))
+    toks = ["resp:A:1", "resp:A:0", "resp:B:1", "resp:B:0", "timeout", "disctimeout"]
+    seqs = [list(x) for n in range(0, 5) for x in itertools.product(toks, repeat=n)
+            if x.count("timeout") <= 1 and ("disctimeout" not in x or ("timeout" in x and x.index("timeout") < x.index("disctimeout")))
+            and x.count("disctimeout") <= 1]
+    if not thorough:
+        seqs = seqs[:40] + rng.sample(seqs[40:], 260)
+    for evs in seqs:
+        for concurrent in ((False, True) if thorough or rng.random() < 0.5 else (False,)):
+            net, client, conn, _ = simnet.established(keepalive=100000.0)
+            loop = net.loop
+            base = {k: len(v) for k, v in conn._message_handlers.items()}
+            n0 = len(net.written())
+            cbs = {A: 0, B: 0}
+            ops_ = [(A, 30.0)] + ([(B, 100000.0)] if concurrent else [])   # the second call never times out by itself
+            ts_ = []
+            for addr, to in ops_:
+                def cb(connected, mtu, error, addr=addr):
+                    cbs[addr] += 1
+                ts_.append(tasks._PyTask(client.bluetooth_device_connect(addr, cb, timeout=to, disconnect_timeout=20.0),
+                                         loop=loop, name=f"bconn{addr}", eager_start=True))
             loop.run_idle()
-        wr = [(ty, p) for _, ty, p in net.written()[n0:]]
-        reqs = []
-        for ty, p in wr:
-            if ty == PROTO_TO_MESSAGE_TYPE[pb.BluetoothDeviceRequest]:
-                r = pb.BluetoothDeviceRequest(); r.ParseFromString(p)
-                reqs.append((r.address, r.request_type))
-        outcome = classify_task(t, "connect")
-        out = []
-        if any(rt == 1 for _, rt in reqs):   # DISCONNECT
-            out += ["unsub", f"disconnect:{[a for a, rt in reqs if rt == 1][0]}"]
-        if outcome == "timeout":
-            out.append("raise-timeout")
-        elif outcome == "result":
-            out.append("ok")
-        if outcome == "result":
-            t.result()()   # the unsubscribe handle returned to the caller
-        extra, waiters, timers = leftovers(conn, loop, base)
-        if outcome == "timeout":
-            if not any(rt == 1 and a == A for a, rt in reqs):
-                ck.violation("c16:connect-timeout-no-disconnect", f"bluetooth_device_connect timed out (events {evs}) without "
-                             f"writing DISCONNECT for its address: requests {reqs}", {"events": evs})
-        if t.done() and (extra or waiters or timers):
-            ck.violation("c16:connect-leak", f"bluetooth_device_connect ended {outcome} (events {evs}): handlers left {extra}, "
-                         f"waiters {waiters}, timers {timers}", {"events": evs})
-        conn_lines.append(f"ble.connect {A} " + " ".join(e.replace("A", str(A)).replace("B", str(B)) for e in evs))
-        conn_impl.append(" ".join(out))
-        if t.done() and not t.cancelled():
-            t.exception()
-        net.close()
+            for e in evs:
+                k = e.split(":")
+                if k[0] == "timeout":
+                    loop.advance(30.0)
+                elif k[0] == "disctimeout":
+                    loop.advance(20.0)
+                else:
+                    net.send(pb.BluetoothDeviceConnectionResponse(address=A if k[1] == "A" else B, connected=k[2] == "1", mtu=23))
+                loop.run_idle()
+            reqs = []
+            for _, ty, p_ in net.written()[n0:]:
+                if ty == PROTO_TO_MESSAGE_TYPE[pb.BluetoothDeviceRequest]:
+                    r = pb.BluetoothDeviceRequest(); r.ParseFromString(p_)
+                    reqs.append((r.address, r.request_type))
+            for (addr, to), t in zip(ops_, ts_):
+                mine = [e for e in evs if not (addr == B and e in ("timeout", "disctimeout"))]
+                # ---- oracle from the property text
+                phase, want, want_cb, sub = "connecting", [], 0, True
+                me = "A" if addr == A else "B"
+                for e in mine:
+                    k = e.split(":")
+                    if k[0] == "resp":
+                        if k[1] == me and sub:
+                            want_cb += 1
+                        if phase == "connecting" and k[1] == me:
+                            phase, want = "ok", ["ok"]
+                        elif phase == "disconnecting" and k[1] == me and k[2] == "0":
+                            phase = "failed"; want.append("raise-timeout")
+                    elif k[0] == "timeout" and phase == "connecting":
+                        phase, sub = "disconnecting", False
+                        want += ["unsub", f"disconnect:{addr}"]
+                    elif k[0] == "disctimeout" and phase == "disconnecting":
+                        phase = "failed"; want.append("raise-timeout")
+                outcome = classify_task(t, "connect")
+                out = []
+                if any(rt == 1 and a_ == addr for a_, rt in reqs):   # DISCONNECT
+                    out += ["unsub", f"disconnect:{addr}"]
+                if outcome == "timeout":
+                    out.append("raise-timeout")
+                elif outcome == "result":
+                    out = ["ok"] if not out else out + ["ok"]
+                if out != want:
+                    ck.violation(f"c16:connect:{' '.join(want) or 'pending'}->{' '.join(out) or 'pending'}",
+                                 f"bluetooth_device_connect({me}) with device events {evs} ({'next to a pending connect for B' if concurrent else 'alone'}) "
+                                 f"did [{' '.join(out)}], its own events prescribe [{' '.join(want)}]", {"events": evs, "concurrent": concurrent})
+                if cbs[addr] != want_cb:
+                    ck.violation("c16:connect-callback-count", f"bluetooth_device_connect({me}) events {evs}: the connection-state callback "
+                                 f"ran {cbs[addr]} times, {want_cb} responses for its address arrived while subscribed",
+                                 {"events": evs, "concurrent": concurrent})
+                conn_lines.append(f"ble.connect {addr} " + " ".join(
+                    e.replace(":A:", f":{A}:").replace(":B:", f":{B}:") for e in mine))
+                conn_impl.append(" ".join(out))
+            for t in ts_:
+                if t.done() and not t.cancelled() and t.exception() is None:
+                    t.result()()   # the unsubscribe handle returned to the caller
+                elif not t.done():
+                    t.cancel()
+            loop.run_idle()
+            extra, waiters, timers = leftovers(conn, loop, base)
+            if extra or waiters or timers:
+                ck.violation("c16:connect-leak", f"bluetooth_device_connect events {evs} (concurrent={concurrent}): after every call ended "
+                             f"or was cancelled and the returned handles were released: handlers left {extra}, waiters {waiters}, timers {timers}",
+                             {"events": evs, "concurrent": concurrent})
+            for t in ts_:
+                if t.done() and not t.cancelled():
+                    t.exception()
+            net.close()
+    dist["connect_scenarios"] = len(conn_lines)
     # ---- model vs implementation
     live_lines = [l for l in lines if l is not None] + conn_lines
     live_impl = [o for l, o in zip(lines, impl) if l is not None] + conn_impl
